@@ -122,12 +122,13 @@ class Repo:
         if not os.environ.get("OSACA_SA_NO_INLINE"):
             from .inline import Inliner, load_known
 
-            kf, kc = load_known()
-            inl = Inliner(self, kf, kc).run()
+            kf, kc, kl = load_known()
+            inl = Inliner(self, kf, kc, kl).run()
+            self.propagated_temps = sorted(set(inl.temps))
             self.inlined = sorted(set(inl.expanded))
             self.inlined_constants = sorted(inl.consts)
             self.not_inlinable = dict(inl.rejected)
-            if inl.expanded or inl.consts:
+            if inl.expanded or inl.consts or inl.temps:
                 for mod in self.modules.values():
                     canonicalise(mod.tree)
                     ast.fix_missing_locations(mod.tree)
